@@ -146,6 +146,15 @@ pub fn run(ctx: &mut Ctx) {
         ctx.case(fnv(cl.as_bytes()), *n >= 3);
     }
 
+    // ---- C03: different salts give different file hashes — also for the empty file?
+    {
+        let a = file_node_hash(&[], &[0u8; 32]).unwrap();
+        let b = file_node_hash(&[], &[7u8; 32]).unwrap();
+        if a == b { ctx.fail("C03", "empty-file-hash-ignores-salt", format!("file_node_hash of the empty file is {} under every salt", a.hex()), "{\"suite\":\"hashes\",\"input\":\"empty chunk list, salts 00.. and 07..\"}".into()); }
+        let one = [(rand_hash(&mut rng), 5usize)];
+        if file_node_hash(&one, &[0u8; 32]).unwrap() == file_node_hash(&one, &[7u8; 32]).unwrap() { ctx.fail("C03", "salt-ignored", "file hash of a non-empty file does not depend on the salt".into(), "null".into()); }
+    }
+
     // ---- hmac
     for _ in 0..(30 * scale) {
         let h = rand_hash(&mut rng);
